@@ -152,7 +152,7 @@ class Recorder:
 
 
 OPS = ['synth', 'group', 'pargroup', 'set', 'setn', 'map', 'fill', 'run', 'release', 'move', 'free', 'buffer',
-       'buffers', 'buffree', 'buffree-twice', 'freeall', 'bus', 'busfree', 'busset', 'sync']
+       'buffers', 'buffree', 'buffree-twice', 'freeall', 'bus', 'busfree', 'busset', 'sync', 'subbus']
 ACTIONS = ['addToHead', 'addToTail', 'addBefore', 'addAfter', 'addReplace']
 
 
@@ -214,7 +214,7 @@ def scenario(ctx, nops, first, use_bind):
                     cmds = R.commands()[before:] if not use_bind else \
                         [list(x) for x in ctxmgr._bundle[before:] if isinstance(x[0], str)]
                     segments[-1].extend(cmds)
-                    check_cmds(ctx, cmds, hist, ledger_nodes, live_bufs | set(freed_bufs), data)
+                    check_cmds(ctx, cmds, hist, ledger_nodes, live_bufs | set(freed_bufs), data, buses)
             except Boom:
                 raised = True
                 if ctxmgr is not None:
@@ -443,15 +443,20 @@ def do_op(ctx, m, server, op, i, nodes, bufs, buses, ledger_nodes, live_bufs, fr
         if len(group) > 1 and ctx.choose(f'rev{i}', 2):
             group.reverse()
         nums = [x.bufnum for x in group]
+        with_fn = op == 'buffree' and i == 1 and ctx.choose(f'compl{i}', 2)
         for x in group:
-            x.free()
+            if with_fn:
+                # completion message given as a function of the buffer: it sees the buffer as it was
+                x.free(lambda b_: ['/b_query', b_.bufnum])
+            else:
+                x.free()
             if op == 'buffree-twice':
                 x.free()
             bufs.remove(x)
         num = nums[0]
         live_bufs.difference_update(nums)
         freed_bufs.extend(nums)
-        hist.append([op, nums, ('expect-bfree', nums)])
+        hist.append([op, nums, ('expect-bfree', nums)] + ([('expect-completion', nums)] if with_fn else []))
         # the allocator takes the numbers back
         if any(blk.address <= n_ < blk.address + blk.size for blk in server._buffer_allocator.blocks()
                for n_ in nums):
@@ -479,6 +484,35 @@ def do_op(ctx, m, server, op, i, nodes, bufs, buses, ledger_nodes, live_bufs, fr
         b.free()
         buses.remove(b)
         hist.append([op])
+    elif op == 'subbus':
+        if i > 0:
+            raise PathAbort('sub buses are explored as the first operation of a history only (bound)')
+        n = int(ctx.idx(f'pch{i}', 1, 3))
+        parent = bus.ControlBus(n, server)
+        buses.append(parent)
+        off = ctx.choose(f'off{i}', n + 1)
+        ch = 1 + ctx.choose(f'sch{i}', 2)
+        hist.append([op, parent.index, n, off, ch])
+        try:
+            sb = parent.sub_bus(off, ch)
+        except (PathAbort, Inconclusive, Violation):
+            raise
+        except Exception as e:
+            if off + ch <= n:
+                raise Violation(f'sub_bus({off}, {ch}) of a {n}-channel bus is refused: {type(e).__name__}: {e}', None,
+                                data('subbus-refused'))
+            return
+        if off + ch > n:
+            raise Violation(f'sub_bus({off}, {ch}) of a {n}-channel bus reaches outside its parent (index {sb.index}, '
+                            f'{ch} channels; parent {parent.index}..{parent.index + n - 1})', None, data('subbus-range'))
+        val = ctx.real(f'val{i}', -10, 10)
+        k = ctx.choose(f'subuse{i}', 3)
+        if k == 0:
+            sb.set(*([val] * ch))
+        elif k == 1:
+            sb.setn([val] * ch)
+        else:
+            sb.fill(val, ch)
     elif op == 'busset':
         cb = [b for b in buses if type(b).__name__ == 'ControlBus']
         b = pick(cb, 'cbus')
@@ -487,7 +521,7 @@ def do_op(ctx, m, server, op, i, nodes, bufs, buses, ledger_nodes, live_bufs, fr
         hist.append([op, b.index, b.channels])
 
 
-def check_cmds(ctx, cmds, hist, ledger_nodes, known_bufs, data):
+def check_cmds(ctx, cmds, hist, ledger_nodes, known_bufs, data, buses=()):
     h = hist[-1]
     for c in cmds:
         err = conforms(c)
@@ -507,6 +541,19 @@ def check_cmds(ctx, cmds, hist, ledger_nodes, known_bufs, data):
             if x not in ledger_nodes:
                 raise Violation(f'{c[0]} mentions node id {x} which this client never allocated (history {hist})', None,
                                 data('foreign-id'))
+        if c[0] in ('/c_set', '/c_setn', '/c_fill'):
+            own = [(b.index, b.index + b.channels) for b in buses
+                   if type(b).__name__ == 'ControlBus' and b.index is not None]
+            if c[0] == '/c_set':
+                spans = [(c[k], 1) for k in range(1, len(c), 2)]
+            elif c[0] == '/c_setn':
+                spans = [(c[1], c[2])]
+            else:
+                spans = [(c[k], c[k + 1]) for k in range(1, len(c), 3)]
+            for first, cnt in spans:
+                if not any(lo <= first and first + cnt <= hi for lo, hi in own):
+                    raise Violation(f'{c[0]} addresses control bus indices {first}..{first + cnt - 1}, which this client '
+                                    f'did not allocate (own ranges {own}) (history {hist})', None, data('foreign-bus'))
         if c[0] in ('/b_alloc', '/b_free', '/b_zero') and c[1] not in known_bufs:
             raise Violation(f'{c[0]} mentions buffer number {c[1]!r} which this client does not own (history {hist})',
                             None, data('foreign-buf'))
@@ -550,6 +597,11 @@ def check_cmds(ctx, cmds, hist, ledger_nodes, known_bufs, data):
             got = [c[1] for c in cmds if c[0] == '/b_alloc']
             if got != e[1]:
                 raise Violation(f'/b_alloc emitted for {got}, buffers allocated {e[1]}', None, data('alloc-cmds'))
+        elif e[0] == 'expect-completion':
+            for c in cmds:
+                if c[0] == '/b_free' and (len(c) < 3 or c[2] != ['/b_query', c[1]]):
+                    raise Violation(f'/b_free {c[1]} carries the completion message {c[2:]!r}; the function was given '
+                                    f'the buffer, whose number is {c[1]}', None, data('completion'))
         elif e[0] == 'expect-bfree':
             got = sorted(c[1] for c in cmds if c[0] == '/b_free')
             if got != sorted(e[1]):
@@ -622,9 +674,11 @@ def main(tier, seed):
     for b in (0, 1, 2):
         n = nops if b == 0 else nops - 1
         for a in range(len(OPS)):
-            if OPS[a] in ('synth', 'group', 'pargroup', 'buffer', 'buffers', 'bus', 'freeall') or \
+            if OPS[a] in ('synth', 'group', 'pargroup', 'buffer', 'buffers', 'bus', 'freeall', 'subbus') or \
                     (b and OPS[a] == 'sync'):
-                if b:
+                if OPS[a] == 'subbus':
+                    jobs.append(dict(nops=1, first=[a], bind=b, deep=tier != 'quick'))
+                elif b:
                     jobs.append(dict(nops=n, first=[a], bind=b, deep=tier != 'quick'))
                 else:
                     for a2 in range(len(OPS)):
